@@ -119,8 +119,9 @@ PROPS = {
     },
     'C06': {
         'level': 'proof',
-        'functions': [],
+        'functions': ['pyx12.error_997.error_997_visitor._write'],
         'crosscheck_functions': [],
+        'ground': ['c06'],
         'bounded': ['contracts.pipeline:bounded_pipeline_c06'],
     },
     'C07': {
@@ -129,5 +130,19 @@ PROPS = {
                       'pyx12.x12file.X12Reader.cleanup', 'pyx12.validation.IsValidDataType', 'pyx12.map_if.element_if.is_valid'],
         'crosscheck_functions': [],
         'bounded': ['contracts.pipeline:bounded_pipeline_c07'],
+    },
+    'C10': {
+        'level': 'proof',
+        'functions': ['pyx12.x12context.X12DataNode._get_insert_idx', 'pyx12.x12context.X12DataNode._cleanup',
+                      'pyx12.segment.Segment.get_value', 'pyx12.segment.Segment.set'],
+        'crosscheck_functions': [],
+        'bounded': ['contracts.x12context:bounded_tree_editing'],
+    },
+    'C12': {
+        'level': 'proof',
+        'functions': ['pyx12.segment.Segment.__init__', 'pyx12.segment.Segment.format'],
+        'crosscheck_functions': [],
+        'frames': {'rules': ('delim-read',), 'allow': 'ALLOW_C12'},
+        'bounded': ['contracts.pipeline:bounded_reencode'],
     },
 }
